@@ -7,7 +7,7 @@ use crate::c01::{self, Task};
 use crate::drive::{self, Ports, TraceParams};
 use crate::mc::{self, Chooser};
 use crate::report::{Args, Finding, Report, Tier};
-use crate::simnet::{JunkKind, Menu, Proto};
+use crate::simnet::{self, JunkKind, Menu, Proto};
 use serde_json::{json, Value};
 use std::collections::{BTreeMap, HashSet};
 use std::sync::Mutex;
@@ -18,6 +18,11 @@ fn junk_menu(t: &Task, sibling_delta: u16) -> Vec<JunkKind> {
         // slots 201..253 keep the Awaited probes of the long first round; after the wrap-around
         // their sequence numbers are in the window again
         return vec![JunkKind::NeverSent(230), JunkKind::NeverSent(253), JunkKind::NeverSent(201), JunkKind::NextUnissued];
+    }
+    if t.topo == "L3-flaky" {
+        // a probe of this round failed at the socket (Failed) or found its port taken (Skipped):
+        // its sequence number was never sent
+        return vec![JunkKind::Unsent, JunkKind::NextUnissued, JunkKind::Duplicate];
     }
     let mut v = vec![JunkKind::Duplicate, JunkKind::Late, JunkKind::NextUnissued, JunkKind::NeverSent(-1), JunkKind::NeverSent(511), JunkKind::NeverSent(512), JunkKind::NeverSent(300)];
     if t.cell.proto == Proto::Icmp {
@@ -36,13 +41,18 @@ fn junk_menu(t: &Task, sibling_delta: u16) -> Vec<JunkKind> {
 fn menu(t: &Task, sibling_delta: u16, inert: bool) -> Menu {
     // the long wrap-around runs (254 probes per round) only inject junk
     let long = t.params.max_ttl == 254;
+    let flaky = t.topo == "L3-flaky";
     Menu {
-        delay: !long,
+        delay: !long && (!flaky || t.bound > 2),
         reorder: false,
         dup: false,
-        loss: !long,
+        loss: !long && !flaky,
         junk: junk_menu(t, sibling_delta),
         inert_junk: inert,
+        // transient socket failures only (C09 covers the fatal ones)
+        send_faults: if flaky { vec![simnet::EHOSTUNREACH] } else { vec![] },
+        bind_faults: if flaky && t.cell.proto == Proto::Tcp { vec![simnet::EADDRINUSE] } else { vec![] },
+        connect_faults: if flaky && t.cell.proto == Proto::Tcp { vec![simnet::ENETUNREACH] } else { vec![] },
         ..Menu::default()
     }
 }
@@ -149,6 +159,15 @@ pub fn run(args: &Args) -> i32 {
                 tasks.push((Task { cell, topo: "silent-target", params: p, bound: 1 }, 1));
             }
         }
+    }
+    // transient socket failures: a Failed / Skipped slot's sequence number was never sent; a
+    // response naming it must change nothing (deviations: the fault(s) and the junk)
+    for cell in drive::base_cells() {
+        let mut p = TraceParams::default();
+        p.rounds = 2;
+        p.trace_id = 0x1234;
+        p.packet_size = if cell.v6 { 96 } else { 84 };
+        tasks.push((Task { cell, topo: "L3-flaky", params: p, bound }, 1));
     }
     // the other port directions (pinned destination, both pinned): foreign-port responses
     for cell in drive::all_cells().into_iter().filter(|c| c.privileged && !c.ext && matches!(c.ports, Ports::FixedDest | Ports::FixedBoth)) {
@@ -292,7 +311,7 @@ pub fn run(args: &Args) -> i32 {
     rep.set("horizon_hits", json!(a.stats.horizon_hits));
     rep.set("determinism_replays", json!(a.replays));
     rep.observe("junk_deliveries_by_kind", json!(a.by_kind));
-    rep.set("rule", json!(format!("14 base cells x topologies {{L2,L3,silent-mid}} (+ every privileged cell with a pinned destination port or both ports pinned, incl. a foreign response differing in the second pinned port only) x CLI-assigned identifier pairs (pid+i for pid in {{0,1,2,65533,65534}}), 3 rounds: all executions with <= {bound} deviations where a deviation is a delay, a loss or the injection of one junk datagram (duplicate of a delivered response; late response to a previous-round probe; sibling tracer's Time Exceeded / Echo Reply; other target; other fixed port; never-sent sequences: next unissued, round_start-1, +300, +511, +512); plus 254-probe rounds across sequence wrap-around with <= 1 deviation. Oracle: re-run with every junk datagram replaced by an ICMP Echo Request (discarded at the lowest level) - published rounds, timestamps and final snapshot must be identical. distinct_nontrivial = executions containing >= 1 junk delivery (each compared with its inert twin)")));
+    rep.set("rule", json!(format!("14 base cells x topologies {{L2,L3,silent-mid}} (+ every privileged cell with a pinned destination port or both ports pinned, incl. a foreign response differing in the second pinned port only) x CLI-assigned identifier pairs (pid+i for pid in {{0,1,2,65533,65534}}), 3 rounds: all executions with <= {bound} deviations where a deviation is a delay, a loss or the injection of one junk datagram (duplicate of a delivered response; late response to a previous-round probe; sibling tracer's Time Exceeded / Echo Reply; other target; other fixed port; never-sent sequences: next unissued, round_start-1, +300, +511, +512; + per cell a path with transient socket failures offered at every send/bind/connect, where the junk names the sequence of the Failed / Skipped slot); plus 254-probe rounds across sequence wrap-around with <= 1 deviation. Oracle: re-run with every junk datagram replaced by an ICMP Echo Request (discarded at the lowest level) - published rounds, timestamps and final snapshot must be identical. distinct_nontrivial = executions containing >= 1 junk delivery (each compared with its inert twin)")));
     for s in a.samples {
         rep.sample(s);
     }
@@ -304,7 +323,7 @@ fn kind_names(kinds: &[JunkKind]) -> String {
     let mut v: Vec<String> = kinds
         .iter()
         .map(|k| match k {
-            JunkKind::NeverSent(_) | JunkKind::NextUnissued => "NeverSent".to_string(),
+            JunkKind::NeverSent(_) | JunkKind::NextUnissued | JunkKind::Unsent => "NeverSent".to_string(),
             other => format!("{other:?}").split('(').next().unwrap().to_string(),
         })
         .collect();
